@@ -27,6 +27,7 @@ import (
 	"github.com/ipld/go-ipld-prime/node/gendemo"
 	"github.com/ipld/go-ipld-prime/schema"
 	"github.com/ipld/go-ipld-prime/traversal"
+	"github.com/ipld/go-ipld-prime/storage/memstore"
 	mh "github.com/multiformats/go-multihash"
 
 	"verif/internal/core"
@@ -88,6 +89,10 @@ type c20Shared struct {
 	bound  datamodel.Node
 	gen    datamodel.Node
 	stream datamodel.Node
+	// a second link system over the library's own memory store (whose readers are plain io.Readers), holding blocks
+	// that load and blocks that are refused in each of the ways a load can be refused
+	lsysMem   linking.LinkSystem
+	failLinks []datamodel.Link
 }
 
 func c20Setup(seed uint64) (*c20Shared, error) {
@@ -132,6 +137,38 @@ func c20Setup(seed uint64) (*c20Shared, error) {
 	ma.Finish()
 	s.gen = nb.Build()
 	s.stream = basicnode.NewBytesFromReader(bytes.NewReader([]byte("stream-backed bytes content")))
+	// blocks for the "loadfail" workload
+	store := &memstore.Store{Bag: map[string][]byte{}}
+	s.lsysMem = cidlink.DefaultLinkSystem()
+	s.lsysMem.SetReadStorage(store)
+	addBlock := func(body []byte, keyOf []byte) {
+		sum, _ := mh.Sum(keyOf, mh.SHA2_256, 32)
+		l := cidlink.Link{Cid: cid.NewCidV1(0x71, sum)}
+		store.Bag[l.Binary()] = body
+		s.failLinks = append(s.failLinks, l)
+	}
+	for i, n := range s.nodes {
+		var buf bytes.Buffer
+		if dagcbor.Encode(n, &buf) != nil {
+			continue
+		}
+		good := append([]byte(nil), buf.Bytes()...)
+		addBlock(good, good) // loads
+		// a complete object followed by more bytes: the codec stops early and the rest is drained through the hasher;
+		// remainders shorter and (much) longer than a copy buffer, each with different content
+		for _, extra := range []int{1, 700, 33000, 70000 + 4099*i} {
+			tail := bytes.Repeat([]byte{byte(0x41 + i), byte(extra)}, (extra+1)/2)[:extra]
+			body := append(append([]byte(nil), good...), tail...)
+			addBlock(body, body)
+		}
+		if len(good) > 1 {
+			cut := good[:len(good)-1]
+			addBlock(cut, cut) // truncated: the decode fails at the end of the stream
+		}
+		addBlock(good, append([]byte("x"), good...)) // decodes, but is not what the link names
+		bad := append(append([]byte(nil), good...), bytes.Repeat([]byte{byte(i)}, 40000)...)
+		addBlock(bad, append([]byte("y"), bad...)) // neither decodes nor matches
+	}
 	return s, nil
 }
 
@@ -181,6 +218,16 @@ func c20Work(s *c20Shared, workload string, iters int) string {
 			for _, c := range []uint64{0x71, 0x0129, 0x55} {
 				_, err := multicodec.LookupEncoder(c)
 				put(fmt.Sprint(err))
+			}
+		case "loadfail": // loads through one link system over the memory store: good blocks and every kind of refusal
+			for _, l := range s.failLinks {
+				n, err := s.lsysMem.Load(linking.LinkContext{}, l, basicnode.Prototype.Any)
+				put(termOfOrErr(n, err))
+				nb := basicnode.Prototype.Any.NewBuilder()
+				err = s.lsysMem.Fill(linking.LinkContext{}, l, nb)
+				put(fmt.Sprint(err))
+				_, raw, err := s.lsysMem.LoadPlusRaw(linking.LinkContext{}, l, basicnode.Prototype.Any)
+				put(fmt.Sprint(len(raw), err))
 			}
 		case "bind": // typed and representation views of a shared bound node; fresh nodes from a shared prototype; new bindings
 			put(termOf(s.bound))
@@ -405,7 +452,7 @@ func runC20(c *core.Ctx) error {
 		return sigs, sample, digests, seq, nil
 	}
 	rounds := c.Pick(1, 12)
-	for _, workload := range []string{"nodes", "walk", "links", "bind", "gen", "stream", "infer-same"} {
+	for _, workload := range []string{"nodes", "walk", "links", "loadfail", "bind", "gen", "stream", "infer-same"} {
 		for round := 0; round < 2*rounds; round++ {
 			g := []int{8, 4, 16}[(round/2)%3]
 			procs := []int{8, 2, 16, 4}[(round/2)%4]
